@@ -34,8 +34,9 @@ REAL = ["pymbolic.mapper.c_code.CCodeMapper and the stringifier classes it inher
 STUBS = ["a user node class the mapper cannot print (unsupported_node fault)",
          "the C harness around the emitted text (declarations, printf)"]
 ASSUMPTIONS = [
-    "only the fragment described in DESIGN.md is generated: no bitwise operators/shifts, no "
-    "bool constants, integer programs use long long with non-negative operands "
+    "only the fragment described in DESIGN.md is generated: no "
+    "bool constants, bitwise operators and shifts in integer programs only (a shift of a "
+    "negative value or by more than 30 is not compared), integer programs use long long with non-negative operands "
     "for // and %, floating programs use double and float constants only; complex constants "
     "(printed as std::complex<double>, which is C++) get programs of their own, compiled with "
     "g++: double variables, float and complex constants, no integer constant next to a complex "
@@ -182,6 +183,7 @@ class _FragGen:
 
     weird_prefixes = False
     subclasses = False
+    bitwise = False
 
     def wrap(self, t):
         r = self.r
@@ -209,12 +211,22 @@ class _FragGen:
         ops = ["sum", "prod", "sub", "pow", "pow", "if", "neg"]
         if k == "int":
             ops += ["fdiv", "rem", "fdiv", "rem", "min", "max", "cmp"]
+            if self.bitwise:
+                ops += ["band", "bor", "bxor", "bnot", "shl", "shr"]
         elif k == "mixed":
             ops += ["fdiv", "rem", "min", "max", "cmp", "quotp2", "quotp2", "quoti"]
         else:
             ops += ["quot", "quot", "gpow", "call", "call"]
         o = r.choice(ops)
         e = self.expr
+        if o in ("band", "bor", "bxor"):
+            cls = {"band": "BitwiseAnd", "bor": "BitwiseOr", "bxor": "BitwiseXor"}[o]
+            return ["n", cls, [["t", [e(d + 1) for _ in range(r.randint(2, 3))]]]]
+        if o == "bnot":
+            return ["n", "BitwiseNot", [e(d + 1)]]
+        if o in ("shl", "shr"):
+            return ["n", "LeftShift" if o == "shl" else "RightShift",
+                    [e(d + 1), r.choice([["i", r.choice([0, 1, 2, 3])], self.var()])]]
         if o == "sum":
             kids = [e(d + 1) for _ in range(r.randint(2, 3))]
             if k == "int" and r.random() < 0.05:
@@ -359,6 +371,7 @@ def generate(seed, tier):
     g = _FragGen(r, kind, pool, r.choice([2, 3, 3, 4]))
     g.weird_prefixes = r.random() < 0.06
     g.subclasses = r.random() < 0.3
+    g.bitwise = r.random() < 0.4     # (integer programs) & | ^ ~ << >> as well
     ops = []
     npool = r.randint(2, 6)
     for k in range(npool):
@@ -509,6 +522,13 @@ def ctype_obj(e, p, var="int"):
         if var == "float":
             return None if ctype_obj(e.exponent, p, var) is None else "float"     # pow()
         return None
+    if isinstance(e, (p.BitwiseAnd, p.BitwiseOr, p.BitwiseXor)):
+        return "int" if all(ctype_obj(c, p, var) == "int" for c in e.children) else None
+    if isinstance(e, p.BitwiseNot):
+        return "int" if ctype_obj(e.child, p, var) == "int" else None
+    if isinstance(e, (p.LeftShift, p.RightShift)):
+        return "int" if ctype_obj(e.shiftee, p, var) == "int" \
+            and ctype_obj(e.shift, p, var) == "int" else None
     if isinstance(e, p.Comparison):
         return None if None in (ctype_obj(e.left, p, var), ctype_obj(e.right, p, var)) else "int"
     if isinstance(e, (p.LogicalAnd, p.LogicalOr)):
@@ -619,6 +639,24 @@ def _make_ref_evaluator():
 
         def map_min(self, expr):
             return EvaluationMapper.map_min(self, expr)
+
+        def _shift(self, expr):
+            n, k = self.rec(expr.shiftee), self.rec(expr.shift)
+            if n < 0 or k < 0 or k > 30:
+                # shifting a negative value or by a negative / too large amount is undefined
+                # or implementation-defined in C
+                self.bad.append("shift-range")
+                if k < 0:
+                    raise ValueError("negative shift")
+            return n, k
+
+        def map_left_shift(self, expr):
+            n, k = self._shift(expr)
+            return n << k
+
+        def map_right_shift(self, expr):
+            n, k = self._shift(expr)
+            return n >> k
 
         def map_floor_div(self, expr):
             n, d = self.rec(expr.numerator), self.rec(expr.denominator)
